@@ -83,6 +83,23 @@ def wf_clauses(S, ret, srow, Nn, tag="result"):
     return out
 
 
+def seq_view(shape):
+    """(length, at) for a shape held as a Python tuple of terms or as a symbolic-length tuple."""
+    if isinstance(shape, Arr):
+        return shape.shape[0], (lambda q: T.tz(shape.fn(q)))
+    items = list(shape)
+
+    def at(q):
+        if isinstance(q, int):
+            return T.tz(items[q])
+        r = T.tz(items[-1]) if items else z3.IntVal(0)
+        for k in range(len(items) - 2, -1, -1):
+            r = z3.If(q == k, T.tz(items[k]), r)
+        return r
+
+    return len(items), at
+
+
 def shape_equal(S, shape_a, shape_b):
     la, lb = shape_a.shape[0] if isinstance(shape_a, Arr) else len(shape_a), shape_b.shape[0] if isinstance(shape_b, Arr) else len(shape_b)
     at = lambda s, q: s.fn(q) if isinstance(s, Arr) else s[q]
@@ -156,3 +173,192 @@ class mul_sparse(Contract):
             yield "no-explicit-zero", T.ForAll([k], z3.Implies(z3.And(0 <= k, T.tz(k < m)), T.tz(vals.fn(k, 0)) != 0))
         else:
             yield "same-subscripts", S.And(S.eq(m, g["n"]), T.ForAll([k], z3.Implies(z3.And(0 <= k, k < g["n"]), rf(k) == A.fields["subs"].rowfn(k))))
+
+
+def _is_sptensor(ret):
+    return isinstance(ret, Rec) and ret.cls == "sptensor"
+
+
+def _same_rows(S, ret, A):
+    subs, vals, _ = result_parts(ret)
+    n = A.ghost["n"]
+    rf = N.ensure_rows(S.ctx, subs)
+    k = z3.Int("sr!k")
+    return S.And(S.eq(subs.shape[0], n), T.ForAll([k], z3.Implies(z3.And(0 <= k, k < n), rf(k) == A.fields["subs"].rowfn(k))))
+
+
+class _ValueMap(Contract):
+    """S -> same subscripts, values g(v): shared shape of ones / neg / pos / copy."""
+    props = ("C03", "C06")
+    inline = INLINE_CTOR
+
+    def g(self, v):
+        raise NotImplementedError
+
+    def setup(self, S, case):
+        return dict(__self__=sym_sptensor(S, "A"))
+
+    def ensures(self, S, a, ret):
+        A = a["__self__"]
+        g = A.ghost
+        yield "returns-sptensor", _is_sptensor(ret)
+        yield "shape-kept", shape_equal(S, ret.fields["shape"], A.fields["shape"])
+        for c in wf_clauses(S, ret, g["srow"], g["N"]):
+            yield c
+        yield "same-subscripts-in-the-same-order", _same_rows(S, ret, A)
+        subs, vals, _ = result_parts(ret)
+        k = z3.Int("vm!k")
+        yield "values", T.ForAll([k], z3.Implies(z3.And(0 <= k, k < g["n"]), T.tz(vals.fn(k, 0)) == self.g(T.tz(A.fields["vals"].fn(k, 0)))))
+        yield "receiver-unchanged", S.And(A.fields["subs"] is a["__subs0__"] if "__subs0__" in a else True)
+
+
+@register
+class sp_ones(_ValueMap):
+    qual = Q + "ones"
+    doc = "S.ones(): same subscripts (same order), every stored value 1 (Den = indicator of the pattern); well-formed."
+    g = staticmethod(lambda v: z3.RealVal(1))
+
+
+@register
+class sp_neg(_ValueMap):
+    qual = Q + "__neg__"
+    doc = "-S: same subscripts, values negated; well-formed."
+    g = staticmethod(lambda v: -v)
+
+
+@register
+class sp_copy(_ValueMap):
+    qual = Q + "copy"
+    doc = "S.copy(): same subscripts, same values, same shape."
+    g = staticmethod(lambda v: v)
+
+
+@register
+class sp_permute(Contract):
+    qual = Q + "permute"
+    props = ("C07", "C06", "C19")
+    doc = (
+        "S.permute(order): order must be a permutation of 0..N-1 (else raises); result subscript "
+        "(k, m) = S.subs[k, order[m]], shape[m] = S.shape[order[m]], values unchanged; the result is "
+        "well-formed (rows stay pairwise distinct because order is onto)."
+    )
+    inline = INLINE_CTOR
+
+    def setup(self, S, case):
+        A = sym_sptensor(S, "A")
+        L = S.nat("L")
+        order = S.vector("order", L, "int")
+        return dict(__self__=A, order=order)
+
+    @staticmethod
+    def _is_perm(S, order, Nn):
+        L = order.shape[0]
+        q1, q2 = z3.Int("pm!q1"), z3.Int("pm!q2")
+        return S.And(
+            S.eq(L, Nn),
+            S.forall(0, L, lambda q: S.And(0 <= order.fn(q), order.fn(q) < Nn)),
+            T.ForAll([q1, q2], z3.Implies(z3.And(0 <= q1, q1 < q2, T.tz(q2 < L)), T.tz(order.fn(q1)) != T.tz(order.fn(q2)))),
+        )
+
+    def raises_when(self, S, a):
+        A, order = a["__self__"], a["order"]
+        yield "not-a-permutation", S.Not(self._is_perm(S, order, A.ghost["N"]))
+
+    def ensures(self, S, a, ret):
+        A, order = a["__self__"], a["order"]
+        g = A.ghost
+        Nn, n = g["N"], g["n"]
+        yield "returns-sptensor", _is_sptensor(ret)
+        subs, vals, shape = result_parts(ret)
+        slen, sat = seq_view(shape)
+        m, k = z3.Int("p!m"), z3.Int("p!k")
+        gh = S.ctx.ghosts.get("argsort")
+        if gh:
+            # the validity check sorts `order`; on a returning path the sorted values are 0..N-1
+            p_, pinv_ = gh[-1]
+            yield "lemma:order(p(t))==t", T.ForAll([m], z3.Implies(z3.And(0 <= m, m < Nn), z3.And(0 <= p_(m), p_(m) < Nn, T.tz(order.fn(p_(m))) == m)), [p_(m)]), "lemma"
+            yield "lemma:order(q)==pinv(q)", T.ForAll([m], z3.Implies(z3.And(0 <= m, m < Nn), z3.And(T.tz(order.fn(m)) == pinv_(m), 0 <= pinv_(m), pinv_(m) < Nn, p_(pinv_(m)) == m)), [order.fn(m)]), "lemma"
+        yield "shape-permuted", S.And(S.eq(slen, Nn), T.ForAll([m], z3.Implies(z3.And(0 <= m, m < Nn), sat(m) == T.tz(A.fields["shape"].fn(order.fn(m))))))
+        yield "arrays", S.And(subs.ndim == 2, vals.ndim == 2, S.eq(subs.shape[0], n), S.eq(vals.shape[0], n), S.eq(vals.shape[1], 1),
+                              S.Or(S.eq(n, 0), S.eq(subs.shape[1], Nn)))
+        yield "subscripts-permuted", T.ForAll(
+            [k, m], z3.Implies(z3.And(0 <= k, k < n, 0 <= m, m < Nn), T.tz(subs.fn(k, m)) == T.tz(A.fields["subs"].fn(k, order.fn(m)))))
+        yield "values-unchanged", T.ForAll([k], z3.Implies(z3.And(0 <= k, k < n), T.tz(vals.fn(k, 0)) == T.tz(A.fields["vals"].fn(k, 0))))
+        yield "subscripts-inside-new-shape", T.ForAll(
+            [k, m], z3.Implies(z3.And(0 <= k, k < n, 0 <= m, m < Nn), z3.And(0 <= T.tz(subs.fn(k, m)), T.tz(subs.fn(k, m)) < sat(m))))
+        # distinct rows: two result rows that agree in every column agree in every column of S (order is onto)
+        i, j, c = z3.Int("p!i"), z3.Int("p!j"), z3.Int("p!c")
+        As = A.fields["subs"]
+        if gh:
+            ra = As.rowfn
+            w = lambda i_, j_: p_(N.rdiff(ra(i_), ra(j_)))
+            yield "rows-pairwise-distinct(witness)", T.ForAll(
+                [i, j], z3.Implies(z3.And(0 <= i, i < j, j < n),
+                                   z3.And(0 <= w(i, j), w(i, j) < Nn, T.tz(subs.fn(i, w(i, j))) != T.tz(subs.fn(j, w(i, j))))), [[ra(i), ra(j)]]), "lemma"
+        else:
+            yield "rows-pairwise-distinct", T.ForAll(
+                [i, j], z3.Implies(z3.And(0 <= i, i < j, j < n),
+                                   T.Exists([c], z3.And(0 <= c, c < Nn, T.tz(subs.fn(i, c)) != T.tz(subs.fn(j, c))))))
+
+
+@register
+class sp_extract(Contract):
+    qual = Q + "extract"
+    props = ("C04", "C06", "C19")
+    doc = (
+        "S.extract(R) for a p x N subscript matrix R: raises if some entry of R lies outside the "
+        "shape; otherwise returns the p x 1 column with result[k] = Den(S)(R[k]) (the stored value "
+        "at that subscript, 0 if it is not stored), whatever the stored order of S."
+    )
+
+    def setup(self, S, case):
+        A = sym_sptensor(S, "A")
+        p = S.nat("p")
+        R = S.row_matrix("R", p, A.ghost["N"])
+        return dict(__self__=A, searchsubs=R)
+
+    def raises_when(self, S, a):
+        A, R = a["__self__"], a["searchsubs"]
+        p, Nn = R.shape[0], A.ghost["N"]
+        k, m = z3.Int("x!k"), z3.Int("x!m")
+        shp = A.fields["shape"]
+        yield "subscript-outside-shape", T.Exists(
+            [k, m], z3.And(0 <= k, T.tz(k < p), 0 <= m, m < Nn, z3.Or(T.tz(R.fn(k, m)) < 0, T.tz(R.fn(k, m)) >= T.tz(shp.fn(m)))))
+
+    def ensures(self, S, a, ret):
+        A, R = a["__self__"], a["searchsubs"]
+        p = R.shape[0]
+        yield "column-with-one-entry-per-row", S.And(isinstance(ret, Arr) and ret.ndim == 2, S.eq(ret.shape[0], p), S.eq(ret.shape[1], 1))
+        k = z3.Int("x!k")
+        yield "entry-is-the-denoted-value", T.ForAll([k], z3.Implies(z3.And(0 <= k, T.tz(k < p)), T.tz(T.as_real(ret.fn(k, 0))) == den(A, R.rowfn(k))))
+
+
+@register
+class sp_mask(Contract):
+    qual = Q + "mask"
+    props = ("C06", "C02", "C19")
+    doc = (
+        "S.mask(W): raises if W has another order or is larger than S in some mode; otherwise "
+        "returns one value per stored subscript of W (in W's stored order): Den(S) at that subscript."
+    )
+    inline = (Q + "find",)
+
+    def setup(self, S, case):
+        A = sym_sptensor(S, "A")
+        W = sym_sptensor(S, "W")
+        return dict(__self__=A, W=W)
+
+    def raises_when(self, S, a):
+        A, W = a["__self__"], a["W"]
+        NA, NW = A.ghost["N"], W.ghost["N"]
+        m = z3.Int("mk!m")
+        yield "order-differs", NA != NW
+        yield "mask-larger-than-data", z3.And(NA == NW, T.Exists([m], z3.And(0 <= m, m < NA, T.tz(W.fields["shape"].fn(m)) > T.tz(A.fields["shape"].fn(m)))))
+
+    def ensures(self, S, a, ret):
+        A, W = a["__self__"], a["W"]
+        nW = W.ghost["n"]
+        yield "one-value-per-mask-entry", S.And(isinstance(ret, Arr) and ret.ndim == 2, S.eq(ret.shape[0], nW), S.eq(ret.shape[1], 1))
+        k = z3.Int("mk!k")
+        yield "value-of-S-at-the-mask-subscript", T.ForAll(
+            [k], z3.Implies(z3.And(0 <= k, k < nW), T.tz(T.as_real(ret.fn(k, 0))) == den(A, W.fields["subs"].rowfn(k))))
